@@ -339,10 +339,16 @@ static void boundGame(const GenGame& G, long long gi) {
         // capture, or where a castling move is still ahead, are reported under their own kinds.
         std::vector<int> castleAhead(n + 2, 0);
         for (int i = n - 1; i >= 0; i--) castleAhead[i] = castleAhead[i + 1] + (ref::isCastle(g.pos[i], g.moves[i]) ? 1 : 0);
-        auto label = [&](const char* base, int i) {
+        // excess = bound - remaining (or -1 for an infinite bound). A castling move costs one ply but the heuristic
+        // charges king (2 moves) and rook (1 move) separately, i.e. at most 4 plies too many per castling still ahead;
+        // anything beyond that, or an infinite bound without an e.p. capture next, is a different violation.
+        auto label = [&](const char* base, int i, int excess = -1) {
             std::string k = base;
             if (i < n && ref::isEnPassant(g.pos[i], g.moves[i])) k += "-ep-capture-next";
-            else if (castleAhead[i]) k += "-castling-ahead";
+            else if (castleAhead[i] && excess >= 0 && excess <= 4 * castleAhead[i]) {
+                k += "-castling-ahead";
+                long long& mx = rep.stat["max_excess_per_castling_x100"]; long long v = 100LL * excess / castleAhead[i]; if (v > mx) mx = v;
+            }
             return k;
         };
 
@@ -358,7 +364,7 @@ static void boundGame(const GenGame& G, long long gi) {
                 if (b == INT_MAX)
                     viol(label("bound-infinite", i), "goal " + goal + " | prefix " + std::to_string(i) + "/" + std::to_string(n) + " " + TextIO::toFEN(prefix[i]) + " | moves " + moves);
                 else if (b > n - i)
-                    viol(label("bound-exceeds-remaining", i), "goal " + goal + " | prefix " + std::to_string(i) + "/" + std::to_string(n) + " " + TextIO::toFEN(prefix[i]) +
+                    viol(label("bound-exceeds-remaining", i, b - (n - i)), "goal " + goal + " | prefix " + std::to_string(i) + "/" + std::to_string(n) + " " + TextIO::toFEN(prefix[i]) +
                              " bound " + std::to_string(b) + " > " + std::to_string(n - i) + " | moves " + moves);
                 else {
                     if (b == n - i) rep.add("bound_tight");
@@ -403,7 +409,7 @@ static void boundGame(const GenGame& G, long long gi) {
                     viol(label("bound-infinite", i), "goal " + goal + " (after taking back " + std::to_string(k) + " forced moves) | prefix " + std::to_string(i) + "/" + std::to_string(n) +
                              " " + TextIO::toFEN(prefix[i]) + " | moves " + moves);
                 else if (b + k > n - i)
-                    viol(label("bound-exceeds-remaining", i), "goal " + goal + " (after taking back " + std::to_string(k) + " forced moves) | prefix " + std::to_string(i) + "/" + std::to_string(n) +
+                    viol(label("bound-exceeds-remaining", i, b + k - (n - i)), "goal " + goal + " (after taking back " + std::to_string(k) + " forced moves) | prefix " + std::to_string(i) + "/" + std::to_string(n) +
                              " " + TextIO::toFEN(prefix[i]) + " bound " + std::to_string(b) + "+" + std::to_string(k) + " > " + std::to_string(n - i) + " | moves " + moves);
             }
         } catch (const ChessError& e) {
